@@ -9,6 +9,7 @@ Hand-written, core Lean only.  That an instrumented copy computes the same VALUE
 (Proofs/SrcBocCnt.lean), so only the placement of the ticks (visible in the generated text: the `k` of each `loopW?`) is by reading.
 -/
 import TonVerif.PyBytes
+import TonVerif.PyDict
 
 namespace TonVerif.Py
 
@@ -55,5 +56,10 @@ def loopW? {ι σ : Type} (k : Nat) : List ι → σ → (ι → σ → W (σ ×
 def foldW? {ι σ : Type} (k : Nat) (f : σ → ι → W σ) : σ → List ι → W σ
   | s, [] => W.ret s
   | s, x :: xs => W.bind (W.tick k) fun _ => W.bind (f s x) fun s' => foldW? k f s' xs
+
+/-- `Py.while?` (a `while` loop with an iteration budget, as pydict.py renders it) that ticks counter `k` once per iteration started -/
+def whileW? {σ : Type} (k : Nat) (cond : σ → Bool) (body : σ → W σ) : Nat → σ → W σ
+  | 0, _ => W.raise
+  | fuel + 1, s => if cond s then W.bind (W.tick k) fun _ => W.bind (body s) (whileW? k cond body fuel) else W.ret s
 
 end TonVerif.Py
